@@ -707,7 +707,11 @@ func formatSQL(sql string, opts FormattingOptions) string {
 
 	indent := ""
 	if opts.InsertSpaces {
-		indent = strings.Repeat(" ", opts.TabSize)
+		tabSize := opts.TabSize
+		if tabSize < 0 {
+			tabSize = 0 // strings.Repeat panics on a negative count
+		}
+		indent = strings.Repeat(" ", tabSize)
 	} else {
 		indent = "\t"
 	}
@@ -1291,7 +1295,7 @@ func (h *Handler) handleSignatureHelp(params json.RawMessage) (*SignatureHelp, e
 // getFunctionAtPosition finds the function name and parameter index at a position
 func (h *Handler) getFunctionAtPosition(content string, pos Position) (string, int) {
 	lines := strings.Split(content, "\n")
-	if pos.Line >= len(lines) {
+	if pos.Line < 0 || pos.Character < 0 || pos.Line >= len(lines) {
 		return "", 0
 	}
 
